@@ -40,6 +40,10 @@ LEVEL_NOTE = (
     'Known finding D3: % after a reference or parenthesis is not a postfix operator (outside the grammar).')
 DESIGN_REF = '§4 C02'
 
+# theorems of the integrated pipeline model (Props/X01.lean) that carry this property's theorems to formula TEXTS in a
+# compiled workbook; re-built and audited with this check (harness/common.prepare: soft obligations)
+TRANSPORT = ('XlVerif.Props.X01', ['compile_text_total', 'toFx_total_on_wf'])
+
 TRUSTED = [
     'Lean 4 kernel; axioms propext, Classical.choice, Quot.sound only',
     'hand-written models lean/XlVerif/Model/Tokenizer.lean and Model/Parser.lean of xlcalculator/tokenizer.py '
